@@ -408,10 +408,10 @@ def oracle_stop(m, spec, res, T):
             last = None
             for i, ev in enumerate(events):
                 if ev[1] == 'fault':
+                    # (a failing layer tearDown is not among the bad outcomes the statement
+                    # lists: it neither has to stop the run nor may it keep it from ending well)
                     if ev[2].startswith('raise:') and last is not None and \
-                            last[1] in ('layer.setUp', 'layer.tearDown') and \
-                            not (last[1] == 'layer.tearDown'
-                                 and ev[2] == 'raise:NotImplementedError'):
+                            last[1] == 'layer.setUp':
                         if first_bad is None or i < first_bad:
                             first_bad = i
                             kind = 'layer-' + last[1][6:]
@@ -440,7 +440,7 @@ def oracle_stop(m, spec, res, T):
         bad_pid = None
         for pid in sorted(byp):
             has_bad = any(o['pid'] == pid and o['bad'] for o in T.occs) or \
-                any(p == pid for p, l, h, x in T.layer_failures)
+                any(p == pid and h == 'setUp' for p, l, h, x in T.layer_failures)
             if has_bad:
                 bad_pid = pid
                 break
